@@ -87,6 +87,9 @@ _EVAL_TRUSTED = _OPS_TRUSTED + [
 ]
 _EVAL_ASSUME = ['the graph handed to the evaluator carries its BooleanNetwork (as_network() is Some) and its unit set satisfies the regulation constraints and does not constrain state or auxiliary variables (graphs built by get_extended_symbolic_graph)']
 
+_EXT_API = ['collect_unique_wild_cards_recursive', 'collect_unique_wild_cards', 'validate_and_divide_wild_cards', 'extend_context_with_wild_cards',
+            'parse_and_validate_extended', '_model_check_multiple_extended_formulae_dirty', 'model_check_multiple_extended_formulae_dirty',
+            '_model_check_extended_formula_dirty', 'model_check_extended_formula_dirty']
 PROPS['C01'] = {
     'units': ['ops', 'eval', 'api', 'front', 'lex', 'tree', 'mark'],
     'level_text': ('Proof that the recursive evaluator eval_node returns, for every graph, every well-formed tree over all operators and every '
@@ -100,15 +103,18 @@ PROPS['C01'] = {
     'trusted': _EVAL_TRUSTED, 'assumptions': _EVAL_ASSUME,
 }
 PROPS['C02'] = {
-    'units': ['ops', 'eval'],
-    'functions': {'ops': ['compute_valid_domain_for_var', 'eval_bind', 'eval_exists', 'eval_neg', 'eval_jump', 'create_equalizer', 'create_comparator_var_state',
+    'units': ['ops', 'eval', 'api', 'front', 'lex', 'tree', 'mark'],
+    'functions': {'api': _EXT_API, 'front': ['parse_and_minimize_extended_formula', 'parse_extended_formula'], 'lex': [], 'tree': [], 'mark': [], 'ops': ['compute_valid_domain_for_var', 'eval_bind', 'eval_exists', 'eval_neg', 'eval_jump', 'create_equalizer', 'create_comparator_var_state',
                           'project_out_hctl_var', 'project_out_bn_vars'],
                   'eval': ['eval_node', 'eval_hybrid_quantifier', 'restrict_stg_unit_bdd']},
     'level_text': ('Proof that wild-card propositions evaluate to the supplied set and that bind/exists/forall with a domain have the documented '
                    'meaning (bind additionally requires the current state in d; exists/forall range over d\'s states; empty domain: exists false, '
                    'forall true), colour by colour, for every graph and every (colour-dependent, empty, partial) domain set; the three README '
                    'equivalences are proved as lemmas over the semantics for every body formula.'),
-    'level_note': 'Same trusted base as C01. Domain sets must not depend on auxiliary variables (documented requirement of the library). Stage 1 (sharing off).',
+    'level_note': ('Same trusted base as C01. Domain sets must not depend on auxiliary variables (documented requirement of the library). At the API level the extended entry points '
+                   'model_check_(multiple_)extended_formula(e)_dirty are proved end to end (validation of labels against the context, cache extension, evaluation) for batches in which '
+                   'every wild-card PROPOSITION label occurs at most once (domains unrestricted): for that class the occurrence counters are proved sufficient; the general case needs a '
+                   'dynamic counter invariant that was not built (DESIGN.md section 0). Sanitising extended variants are not under contract.'),
     'explanation': ('The Some(domain) arm of eval_node is verified against bind_dom_sem / exists_dom_sem / forall_dom_sem with the proved contracts of '
                     'compute_valid_domain_for_var (projection of the domain onto the variable\'s slot) and restrict_stg_unit_bdd (unit set intersected, '
                     'same transitions, no panic because the restricted unit is non-empty); arm_bind_dom / arm_exists_dom / arm_forall_dom / arm_dom_empty '
@@ -259,16 +265,18 @@ PROPS['C08'] = {
 }
 PROPS['C10'] = {
     'units': ['api', 'eval', 'ops', 'front', 'lex', 'tree', 'mark'],
-    'functions': {'mark': None, 'front': [], 'lex': None, 'tree': [], 'api': [], 'eval': ['eval_node', 'eval_hybrid_quantifier', 'restrict_stg_unit_bdd'], 'ops': None},
+    'functions': {'mark': None, 'front': [], 'lex': None, 'tree': [], 'api': _EXT_API, 'eval': ['eval_node', 'eval_hybrid_quantifier', 'restrict_stg_unit_bdd'], 'ops': None},
     'level_text': ('Proof (lemma_replaced, induction over the tree with the twelve operator lemmas) that replacing any number of sub-formulae by wild-card propositions '
                    'whose context sets agree with the semantics of the replaced sub-formulae inside the unit set leaves the semantics of every surrounding formula '
                    'unchanged inside the unit set, for every graph; proof on the code that eval_node serves a wild-card terminal by the supplied set (cache invariant '
                    'ctx_inv: wild-card entries hold their context set, counters cover the remaining occurrences) and evaluates the rest according to the semantics; '
                    'proof that the extended tokenizer / parser produce, on a formula without wild-cards and domains, exactly the tree of the plain ones (lemma_lex_ext).'),
-    'level_note': ('The extended entry points (model_check_extended_formula*, extend_context_with_wild_cards, validate_and_divide_wild_cards) are NOT under contract: the '
-                   'invariant needs the occurrence counters of wild-cards to cover the evaluations that will really happen, which depends on the cache state (an occurrence '
-                   'below a shared sub-formula is never evaluated) -- eval_node is verified under that budget as a precondition (budget_pre). Same trusted base as C01; '
-                   'known findings D5 / D8.'),
+    'level_note': ('The extended dirty entry points (model_check_(multiple_)extended_formula(e)_dirty, parse_and_validate_extended, validate_and_divide_wild_cards, '
+                   'extend_context_with_wild_cards) are proved end to end for batches in which every wild-card proposition label occurs at most once (each replaced sub-formula gets its own '
+                   'label): Ok(v) => v agrees inside the unit set with the semantics in which each wild-card denotes its supplied set; Err exactly when the text is rejected or a label has no set. '
+                   'For repeated labels the occurrence counters must cover the evaluations that really happen, which depends on the cache state (an occurrence below a shared sub-formula '
+                   'is never evaluated); eval_node is verified under that budget as a precondition (budget_pre) and the entry points are not claimed for that case. The supplied sets are assumed '
+                   'to be sets of the graph that do not depend on auxiliary variables (documented requirement). Sanitising extended variants are not under contract. Same trusted base as C01; known findings D5 / D8.'),
     'explanation': 'spec/subst.rs, spec/plain.rs (lemma_lex_ext, lemma_hdr_ext) in unit api; wild-card arm and hit path of eval_node in unit eval.',
     'trusted': _EVAL_TRUSTED, 'assumptions': _EVAL_ASSUME,
 }
